@@ -421,6 +421,10 @@ def run_scenario(scn, monitor_factories, package_dir, keep_log=False, crash_prop
             files, text = _crash_info(exc)
             if _harness_raised(exc):
                 result.status = "harness_error"
+            elif scn.get("expect_handler_shortage") and type(exc).__name__ == "TagActivatorError":
+                # the scenario owns too few event handlers on purpose: the activator's error is the correct outcome
+                result.status = "stopped_by_shortage_error"
+                ctx.probes["handler_shortage_reported_by_activator"] += 1
             else:
                 result.status = "crash"
             result.error = text
